@@ -55,8 +55,38 @@ func (c *runeScanner) UnreadRune() error {
 	return nil
 }
 
+// lenientScanner is a RuneScanner whose UnreadRune, when the last operation
+// was not a successful ReadRune (end of input), steps back over the last rune
+// read, which the io.RuneScanner contract allows.
+type lenientScanner struct {
+	s    string
+	off  int
+	last int
+}
+
+func (c *lenientScanner) ReadRune() (rune, int, error) {
+	if c.off >= len(c.s) {
+		return 0, 0, io.EOF
+	}
+	r, w := utf8.DecodeRuneInString(c.s[c.off:])
+	c.off += w
+	c.last = w
+	return r, w, nil
+}
+
+func (c *lenientScanner) UnreadRune() error {
+	if c.last == 0 {
+		return fmt.Errorf("nothing to unread")
+	}
+	c.off -= c.last
+	c.last = 0
+	return nil
+}
+
 func source(kind, s string) interface{} {
 	switch kind {
+	case "lenient":
+		return &lenientScanner{s: s}
 	case "bytes":
 		return []byte(s)
 	case "reader":
